@@ -78,20 +78,23 @@ Fixpoint uok_loop (hex : bool) (s : str) (saw : usaw) : bool :=
 Definition underscore_ok (s : str) : bool :=
   let s := match s with c :: t => if (c =? 45) || (c =? 43) then t else s | [] => s end in
   match s with
-  | 48 :: p :: t => if is_b p || is_o p || is_x p then uok_loop (is_x p) t UDig else uok_loop false s UBeg
+  | z :: p :: t =>
+    if (z =? 48) && (is_b p || is_o p || is_x p) then uok_loop (is_x p) t UDig else uok_loop false s UBeg
   | _ => uok_loop false s UBeg
   end.
 
 (* base 0: "0b" "0o" "0x" need at least one more byte; any other leading "0" means octal *)
 Definition base_prefix (s : str) : Z * str :=
   match s with
-  | 48 :: rest =>
-    match rest with
-    | p :: _ :: _ =>
-      if is_b p then (2, tl rest) else if is_o p then (8, tl rest) else if is_x p then (16, tl rest) else (8, rest)
-    | _ => (8, rest)
-    end
-  | _ => (10, s)
+  | c :: rest =>
+    if c =? 48 then
+      match rest with
+      | p :: _ :: _ =>
+        if is_b p then (2, tl rest) else if is_o p then (8, tl rest) else if is_x p then (16, tl rest) else (8, rest)
+      | _ => (8, rest)
+      end
+    else (10, s)
+  | [] => (10, s)
   end.
 
 (* strconv.ParseUint(s, base, bits) for base = 0 or 2..36, bits in 1..64 *)
@@ -533,9 +536,7 @@ Fixpoint short_args (defs : list fdef) (sh : str) (next : option str) : argstep 
     | Some d =>
       let last (v : str) (used : bool) :=
         match set_flag d v with ASets l _ => ASets l used | r => r end in
-      match rest with
-      | 61 :: ((_ :: _) as v) => last v false                              (* -f=arg *)
-      | _ =>
+      let general :=
         match f_kind d with
         | KBool =>
           match set_flag d k_true with
@@ -554,15 +555,19 @@ Fixpoint short_args (defs : list fdef) (sh : str) (next : option str) : argstep 
                   | None => AErr (PNeedsArg [c])
                   end
           end
-        end
+        end in
+      match rest with
+      | e :: ((_ :: _) as v) => if e =? 61 then last v false else general    (* -f=arg *)
+      | _ => general
       end
     end
   end.
 
 Definition arg_step (defs : list fdef) (s : str) (next : option str) : argstep :=
   match s with
-  | 45 :: 45 :: body => long_arg defs body next
-  | 45 :: c :: sh => short_args defs (c :: sh) next
+  | a :: b :: t =>
+    if a =? 45 then (if b =? 45 then long_arg defs t next else short_args defs (b :: t) next)
+    else APos
   | _ => APos                                            (* "", "-", anything not starting with '-' *)
   end.
 
